@@ -627,6 +627,17 @@ func (cs *Case) checkString(c *lp.Ctx) {
 		}
 		return
 	}
+	// the line structure can only be read back when no rendered value contains a
+	// line break or the markers '=' / '#': otherwise only the model comparison applies
+	if !cs.leavesNil() {
+		for i := range cs.RKeys {
+			_, v := decodeOne(S.Enc, cs.RVals[i])
+			if strings.ContainsAny(fmt.Sprintf("%v", v), "\n=#") {
+				c.Hit("string:structure-check-skipped(value contains a line break or marker)")
+				return
+			}
+		}
+	}
 	lines := strings.Split(str, "\n")
 	if len(lines) != int(st.NodeCnt) {
 		cs.viol(c, "rendering shows each node exactly once (line count = node count)", "trie.string", fmt.Sprint(st.NodeCnt), fmt.Sprint(len(lines)))
